@@ -8,7 +8,8 @@ PROPERTY = "C09"
 RULE = 'Same generator as C07. Oracle immediately before every get_succeeding_event after the first commit: per interaction-type tagger the multiset of pending in-state identifier tuples (activator return values of pushed-and-not-trashed handlers) equals tagger.yield_identifiers_send_event_time(fresh active state) as ordered tuples; other activated taggers: equal counts; never more running handlers than owned; TagActivatorError is a violation. Non-trivial: history with >=1 active-unit change and >=10 observations; distinct by (config, edits, seed, budget).'
 ASSUMPTIONS = ["configurations are the runnable shipped .ini files verbatim, or shipped files with parameter edits "
                "only (particle number with number_event_handlers scaled, box, beta, chain/sampling times, grids, "
-               "occupant caps, scheduler, speed, initial direction); wiring is never generated",
+               "scheduler, speed, initial direction); generated wirings are limited to the families G4-G7 derived from "
+               "shipped files (DESIGN.md 8.5) and to a second sampling tagger copied from the shipped one",
                "observation by wrapping instance attributes of state handler, scheduler, activator, input-output "
                "handler and event handlers; private reads: Mediator._state_handler/_scheduler/_activator/"
                "_input_output_handler, Activator._taggers/_internal_states"]
